@@ -11,10 +11,10 @@ RULE = ("threshold: every keep/reject pattern of <=6 (quick: <=5) strictly incre
         "support intervals. Oracle = the property (kept set, new support contains kept / excludes rejected, inside the old "
         "support, midpoint boundaries, restrict(original, new support) == result); kernel outputs compared with the Lean "
         "models of jitthreshold / jitremove_nan. distinct = distinct (timestamps, support, pattern, method)")
-PROVED = ("removeNan_cover (dropna: sample i is kept iff it lies in one of the returned runs [start k, end k] - every kept sample "
+PROVED = ("threshold_multi_epoch_regression / threshold_last_epoch_regression (inputs of the repaired findings), threshold_lone_sample_witness "
+          "(the open finding), C15 threshold_safe (no out-of-range read for ANY series inside a canonical support); removeNan_cover (dropna: sample i is kept iff it lies in one of the returned runs [start k, end k] - every kept sample "
           "inside the new support, no dropped one; any mask), removeNan_runs (starts/ends are kept samples, equally many); "
-          "threshold_multi_epoch_witness and "
-          "threshold_single_sample_witness (the two open known findings, proved on the model)")
+          "")
 NOT_PROVED = ("threshold support theorem for single-interval supports, dropna +1us singleton handling: oracle + correspondence only")
 ASSUMPTIONS = ["timestamps strictly increasing by at least 2 us (the +1us singleton widening of dropna assumes samples farther apart than 1us)"]
 METHODS = {"above": lambda d, t: d > t, "below": lambda d, t: d < t, "aboveequal": lambda d, t: d >= t, "belowequal": lambda d, t: d <= t}
@@ -39,7 +39,7 @@ def thr_eval(ctx, batch):
         n = len(ts)
         # kernel level (compiled) vs model
         eq = None
-        if n >= 2:
+        if n >= 0:
             d = np.array(i["data"], dtype=float)
             kt, kd, ks, ke = J.jitthreshold(farr(ts, 1), d, farr(st, 1), farr(en, 1), float(i["thr"]), i["method"])
             kern = ([int(round(v * 2e9)) for v in ks], [int(round(v * 2e9)) for v in ke])
@@ -51,7 +51,9 @@ def thr_eval(ctx, batch):
                     a, b = o.split("|"); m = (dec(a), dec(b)); eq = (m == kern)
                     if not eq:
                         ctx.fail("corr", "jitthreshold != model", i, impl=kern, model=m)
-        fctx = dict(op="threshold", n_support_intervals=len(st), n=n, impl_equals_model=bool(eq))
+        per_iv = [[m for t, m in zip(ts, mask) if a <= t <= b] for a, b in zip(st, en)]
+        fctx = dict(op="threshold", n_support_intervals=len(st), n=n, impl_equals_model=bool(eq),
+                    lone_kept=any(len(v) == 1 and v[0] for v in per_iv))
         x = nap.Tsd(farr(ts, sc), np.array(i["data"], dtype=float), time_support=iset(st, en, sc))
         try:
             r = x.threshold(i["thr"], i["method"])
